@@ -203,6 +203,7 @@ type World struct {
 
 	Park  bool // lock acquisitions may be descheduled on the virtual clock (LockYield)
 	parks atomic.Int64
+	rootG atomic.Int64
 	parkedNow atomic.Int64
 
 	logMu    sync.Mutex
@@ -256,6 +257,11 @@ func LockYield() {
 	// drawn duration. Everything the following stimuli make runnable overtakes it right in front of its critical
 	// section, as a thread the operating system took off the processor would be. Pure function of salt and site.
 	if w.Park && k4 == 1 && r.intn(2) == 0 {
+		// never the scheduler itself: a harness that calls into the tool from the root goroutine (a cache reset, a new
+		// writer) means ONE action; were it descheduled half way, the clock would move and other actors would run inside it
+		if g := w.rootG.Load(); g != 0 && g == goid() {
+			return
+		}
 		w.parks.Add(1)
 		w.parkedNow.Add(1)
 		time.Sleep(parkDur[r.intn(len(parkDur))])
@@ -445,3 +451,21 @@ func Rand64(site string) uint64 {
 }
 
 func ResetRand() { randCtr.Store(0) }
+
+// MarkRoot records the calling goroutine as the run's scheduler (root of the bubble).
+func (w *World) MarkRoot() { w.rootG.Store(goid()) }
+
+// goid parses the current goroutine's number out of its stack header ("goroutine 123 [running]:"). Only called on
+// the rare path that is about to park.
+func goid() int64 {
+	var buf [40]byte
+	n := runtime.Stack(buf[:], false)
+	var id int64
+	for _, c := range buf[len("goroutine "):n] {
+		if c < '0' || c > '9' {
+			break
+		}
+		id = id*10 + int64(c-'0')
+	}
+	return id
+}
